@@ -190,6 +190,50 @@ def ray_of(it, names, body, sym, origin=("pos", "position")):
     return unit, start
 
 
+def ray_walker(path, F):
+    """Is the (un-expandable) helper `path` a ray walker - `fn(self, origin, direction) -> Option<Piece>` that repeatedly steps
+    `current = current.add(direction)?` from the origin (so: starts at distance 1, ends with None at the board edge) and returns the
+    content of the first occupied square?  Returns the name of the direction parameter's index, or None."""
+    h = hir.HELPER_HIR.get(path)
+    if not h:
+        return None
+    params = [p["pat"].get("name") for p in h["params"]]
+    if len(params) != 3:
+        return None
+    env = hir.Env(h, F)
+    sym = hir.Sym(env, F, depth=30)
+    body = h["body"]
+    loops = [n for n, _ in hir.walk(body) if n.get("k") == "Loop"]
+    if len(loops) != 1 or "ForLoop" in str(loops[0].get("src")):
+        return None
+    lp = loops[0]
+    # the cursor: a `let mut` initialised with the origin before the loop
+    curs = [n for n, anc in hir.walk(body) if n.get("k") == "SLet" and n["pat"].get("k") == "PBind" and n.get("init") is not None
+            and sym(n["init"]) == ("var", params[1]) and not any(a is lp for a in anc)]
+    if len(curs) != 1:
+        return None
+    cur = curs[0]["pat"]["name"]
+    sts = [hir.strip(x) for x in lp.get("stmts") or ()]
+    if not sts or sts[0].get("k") != "Assign" or hir.strip(sts[0]["l"]).get("to", {}).get("name") != cur:
+        return None
+    step = sym(sts[0]["r"])
+    add = ("call", "chess::position::Position::add", (("var", cur), ("var", params[2])))
+    # `cur.add(direction)?` : Continue(val) => val, Break => return None-residual
+    if not (step[0] == "match" and step[1] == ("call", "std::ops::Try::branch", (add,))):
+        return None
+    other_assign = [n for n, _ in hir.walk(lp) if n.get("k") in ("Assign", "AssignOp") and n is not sts[0]
+                    and hir.strip(n["l"]).get("to", {}).get("name") == cur]
+    if other_assign or any(n.get("k") in ("Break", "Continue") for n, _ in hir.walk(lp)):
+        return None
+    rets = [n for n, anc in hir.walk(lp) if n.get("k") == "Ret" and "QuestionMark" not in str(n.get("mac"))]
+    read = ("call", "chess::Game::get_position", (("var", params[0]), ("var", cur)))
+    for r in rets:
+        g = [(x[1], x[2]) for x in (hir.guards_of(r, body, sym) or []) if x[0] == "if"]
+        if sym(r["e"]) != read or g != [(("call", "std::option::Option::<T>::is_some", (read,)), True)]:
+            return None
+    return 2 if len(rets) == 1 else None
+
+
 def piece_types_compared(node, sym):
     """PieceType variants that `<something>.piece_type` is compared with (==) under node."""
     out = set()
@@ -214,6 +258,9 @@ def detector_step_sites(F, D):
     sym = hir.Sym(env, F, depth=30)
     loops, _ = for_loops(det, F, env=env)
     ray_bodies = [lb for it, names, lb, m in loops if ray_of(it, names, lb, sym) is not None]
+    ray_bodies += [lb for it, names, lb, m in loops
+                   if any(c.get("k") in ("Call", "MethodCall") and hir.callee_of(c) in hir.HELPER_HIR and ray_walker(hir.callee_of(c), F) is not None
+                          for c, _ in hir.walk(lb))]
     NP, PC = ("var", "NP"), ("var", "PC")
     SOME, NONE = "std::prelude::v1::Some", ("variant", "std::prelude::v1::None")
     att = {"White": {}, "Black": {}}
@@ -381,6 +428,25 @@ def g3(ctx, F, D):
         ctx.check("C01.G3", "detector:ray-starts-at-1:%s" % (rd[0],), rd[1] == 1, fn=DET, file=det["file"], line=hir.line(m),
                   what="a detector ray must start at distance 1", found=rd[1], nontrivial=False)
         ray_body_detector(ctx, det, lb, m, names, dsym, rd[0])
+    # rays walked by an un-expandable helper: `for d in [table] { if let Some(piece) = self.walker(position, d) { enemy slider? } }`
+    for it, names, lb, m in loops:
+        tl = tuple_lits(it)
+        if tl is None or not names:
+            continue
+        for c, _ in hir.walk(lb):
+            if c.get("k") in ("Call", "MethodCall") and hir.callee_of(c) in hir.HELPER_HIR and ray_walker(hir.callee_of(c), F) is not None:
+                args = [dsym(a_) for a_ in hir.call_args(c)]
+                if len(args) == 3 and args[1] == ("var", "position") and args[2] == ("var", names[0]):
+                    rets = [r for r, _ in hir.walk(lb) if r.get("k") == "Ret"]
+                    hit = any(("(piece.owner != player)", True) in [(fmtn(x[1], 200), x[2]) for x in (hir.guards_of(r, lb, dsym) or []) if x[0] == "if"]
+                              and dsym(r["e"]) == ("lit", True) for r in rets)
+                    kinds = frozenset(piece_types_compared(lb, dsym))
+                    ctx.check("C01.G3b", "detector:walker-ray-reports-enemy-slider:%s" % (sorted(kinds),), hit and len(rets) == 1, fn=DET, file=det["file"],
+                              line=hir.line(m), what="the first piece met on a ray must be reported only if it is an enemy slider of the right kind",
+                              found={"returns": len(rets), "enemy test": hit})
+                    for d_ in tl:
+                        total += 1
+                        groups.setdefault(kinds, []).append(d_)
     want = {frozenset({"Rook", "Queen"}): ORTH, frozenset({"Bishop", "Queen"}): DIAG}
     got = {k: set(v) for k, v in groups.items()}
     ok = got == want and all(len(v) == 4 for v in groups.values())
